@@ -14,6 +14,7 @@ from __future__ import annotations
 
 import itertools
 import random as _random
+import sys
 
 from ..core import Prop, Violation, import_repo, show_bool
 
@@ -60,14 +61,36 @@ def code(v) -> str:
     return f"?{type(v).__name__}"
 
 
+# gene NAMES that are distinct dict keys although they are equal under case folding / Unicode normalisation / stripping
+# (codes 20..29): "Temp" vs "temp" vs "TEMP", "café" NFC vs NFD, "ﬁx" (ligature, NFKC = "fix") vs "fix", a name with a
+# trailing blank, "straße" vs "STRASSE" (equal under casefold of the upper-cased form) — the genome must keep them apart
+NAME_VARIANTS = {20: "Temp", 21: "temp", 22: "TEMP", 23: "caf\u00e9", 24: "cafe\u0301", 25: "\ufb01x", 26: "fix",
+                 27: "temp ", 28: "stra\u00dfe", 29: "STRASSE"}
+NAME_VARIANTS_INV = {v: k for k, v in NAME_VARIANTS.items()}
+
+
 def gname(n) -> str:
-    return f"g{n}"
+    return NAME_VARIANTS.get(n, f"g{n}")
 
 
 def ncode(name) -> str:
+    if isinstance(name, str) and name in NAME_VARIANTS_INV:
+        return str(NAME_VARIANTS_INV[name])
     if isinstance(name, str) and name[:1] == "g" and name[1:].isdigit():
         return name[1:]
     return f"?{name!r}"
+
+
+class _Sink:
+    """stdout of non-silent genomes: accepts and drops everything"""
+    def write(self, s):
+        return len(s)
+
+    def flush(self):
+        pass
+
+
+_SINK = _Sink()
 
 
 class Callback:
@@ -198,7 +221,8 @@ class C20(Prop):
            "rollback:cb:raise"]
         + ["replicate:allow:ok", "replicate:nocb:ok", "replicate:cb:ok", "replicate:cb:raise"]
         + ["poke:none", "poke:own", "poke:shared"]
-        + ["assign:allow:0", "assign:allow:1", "assign:cb:none", "assign:cb:some", "assign:rate:0", "assign:rate:1"]
+        + ["assign:allow:0", "assign:allow:1", "assign:cb:none", "assign:cb:some", "assign:rate:0", "assign:rate:1",
+           "assign:silent"]
     )
     assumptions = [
         "get_hash is injective on the name-sorted (name, value) list for the values explored (md5 prefix of its JSON); "
@@ -206,8 +230,8 @@ class C20(Prop):
         "approval callbacks return (anything truthy/falsy) or raise; they do not re-enter the genome and do not "
         "tamper with the Mutation record they are shown",
         "the public attributes allow_mutations / on_mutation / mutation_rate may be re-assigned at any time (Op.assign); "
-        "authorisation is judged by the settings in force at the moment of each call (CallsUnder); `silent` and private "
-        "attributes are not assigned",
+        "authorisation is judged by the settings in force at the moment of each call (CallsUnder); `silent` may be "
+        "assigned too (setsilent; console output is not modelled, it goes to a sink); private attributes are not assigned",
         "the random pass of replicate is environment: random.random is pinned to 0.5 while replicate runs "
         "(mutation_rate 1.0 then attempts the identity mutation on every int-valued gene); the theorems hold for "
         "every draw function",
@@ -265,6 +289,10 @@ class C20(Prop):
                 yield self._long(rng, tier)
                 continue
             names = list(range(rng.choice([1, 2, 2, 3, 3, 4])))
+            if rng.random() < 0.12:
+                # gene names that collide under case folding / NFC / NFKC / stripping (distinct dict keys)
+                grp = rng.choice([[20, 21, 22, 27], [23, 24, 21], [25, 26, 20], [28, 29, 21], [21, 27, 20, 22]])
+                names = grp[:max(2, len(names))] if rng.random() < 0.8 else sorted(rng.sample(sorted(NAME_VARIANTS), max(2, len(names))))
             # approval set
             aset = []
             for nm in names:
@@ -304,6 +332,8 @@ class C20(Prop):
                 else:
                     lines.append(f"new {show_bool(allow)} {cb} {show_bool(rate)} " + " ".join(gl))
                 count += 1
+            if rng.random() < 0.2:
+                lines.append("setsilent 0 0")        # console output on (children inherit it)
             approved_vals = [int(a.split(":")[1]) for a in aset if not a.endswith("*")]
 
             def pick_val():
@@ -340,7 +370,8 @@ class C20(Prop):
                     for _k in range(rng.choice([1, 1, 1, 2])):
                         lines.append(rng.choice([f"setallow {i} 0", f"setallow {i} 0", f"setallow {i} 1",
                                                  f"setcb {i} none", f"setcb {i} none", f"setcb {i} 0", f"setcb {i} 1",
-                                                 f"setcb {i} 2", f"setcb {i} 3", f"setrate {i} {rng.randint(0, 1)}"]))
+                                                 f"setcb {i} 2", f"setcb {i} 3", f"setrate {i} {rng.randint(0, 1)}",
+                                                 f"setsilent {i} 0", f"setsilent {i} {rng.randint(0, 1)}"]))
                     f_ = rng.random()
                     if f_ < 0.35:
                         v_ = pick_val()
@@ -495,6 +526,7 @@ class C20(Prop):
                 "replicate 7 1 -", "express 4 -", "adv 1:q -",
                 "setallow 0 2", "setallow 0", "setcb 0 x", "setallow 9 1", "setcb 7 none", "setrate 0 yes", "setrate 0 1",
                 "setcb 0 none", "setallow 0 1", "stats 0", "stats 9", "stats", "poke 0 0 gene", "poke 0 0 attr",
+                "setsilent 0 0", "setsilent 0 2", "setsilent 9 0", "setsilent 0",
                 "repeat 3 mutate 0 0 5", "repeat 0 mutate 0 0 5", "repeat 2 mutate 0 0 5 /", "repeat 2 / stats 0", "repeat x stats 0",
                 "repeat 2 new 0 0 0", "repeat 2 repeat 2 stats 0", "repeat 9999 stats 0", "repeat 2 mutate 0 0", "repeat 3",
                 "repeat 2 mutate 9 0 1 / stats 0", "repeat 4 rollback 0 0 / mutate 0 0 5",
@@ -521,6 +553,13 @@ class C20(Prop):
                     cases.append({"lines": [f"adv {a}", nw] + list(ops), "note": f"exhaustive depth {k}"})
         spaces = [{"name": f"all histories of depth <= {depth} over a 10-operation alphabet on a 2-gene parent and its "
                            f"first child x {len(cfgs)} gate configurations", "cases": cases}]
+        cS = []
+        for a, nw in cfgs[:3]:
+            for k in range(1, depth):
+                for ops in itertools.product(alpha, repeat=k):
+                    cS.append({"lines": [f"adv {a}", nw, "setsilent 0 0"] + list(ops), "note": f"exhaustive depth {k}, console output on"})
+        spaces.append({"name": f"the same alphabet to depth {depth - 1} on a genome whose `silent` was switched off (every print "
+                               "statement runs; children inherit it) x 3 gate configurations", "cases": cS})
         # repeated express() around every kind of change (same / different context sets), on a genome with mutations
         # enabled and on a callback-gated one: re-adds that keep the value but change type / level, ==-equal values
         alphaE = ["express 0 -", "express 0 1", "add 0 0:1:d:1:2", "add 0 0:1:s:1:0", "add 0 0:104:s:1:2",
@@ -550,8 +589,21 @@ class C20(Prop):
                     for ops in itertools.product(["silence 1 0", "activate 1 0", "express 1 -"], repeat=k):
                         cW.append({"lines": ["adv - -", nw, f"replicate 0 {inh} -"] + list(ops) + ["express 1 -", "express 0 -"],
                                    "note": f"exhaustive expression wrappers on a child, initial level {l0}, inherit {inh}"})
+        # three generations alive at once (round 7, seeded s2: child and grandchild sharing one mutable expression record):
+        # expression wrappers on any of them must leave the two others alone
+        alpha3 = ["silence 1 0", "activate 1 0", "silence 2 0", "activate 2 0", "silence 0 0", "expr 2 0 3", "express 1 -", "express 2 -"]
+        for l0 in "023":
+            nw = f"new 0 none 0 0:1:s:1:{l0} 1:2:c:0:2"
+            for inh in ("1 1", "1 0", "0 1"):
+                i1, i2 = inh.split()
+                for k in range(1, (3 if tier == "quick" else 4)):
+                    for ops in itertools.product(alpha3, repeat=k):
+                        cW.append({"lines": ["adv - -", nw, f"replicate 0 {i1} -", f"replicate 1 {i2} -"] + list(ops) +
+                                   ["express 0 -", "express 1 -", "express 2 -"],
+                                   "note": f"exhaustive expression wrappers on three generations, initial level {l0}, inherit {inh}"})
         spaces.append({"name": f"all sequences of <= {3 if tier == 'quick' else 4} expression operations (silence/activate/set_expression/express) on one "
-                               "gene x 5 initial levels, and of <= 3 on a child x inherit on/off", "cases": cW})
+                               "gene x 5 initial levels, of <= 3 on a child x inherit on/off, and of <= 2 (thorough: 3) over parent / child / "
+                               "grandchild alive at once x 3 initial levels x 3 inheritance patterns", "cases": cW})
         # public attributes re-assigned on a live genome (open -> lock, reviewer revoked / swapped, lock -> open), then
         # every mutating entry point on it and on a child made before / after
         alphaG = ["setallow 0 0", "setallow 0 1", "setcb 0 none", "setcb 0 1", "mutate 0 0 7", "rollback 0 0",
@@ -589,6 +641,21 @@ class C20(Prop):
                                "gene 0 holds a mutable object x 2 gate configurations (open finding "
                                "C20-shared-mutable-value-objects: model = implementation, oracle violations expected)",
                        "cases": cO})
+        # gene names that are equal under case folding / normalisation (distinct dict keys): every operation addresses
+        # exactly the gene it names, in the genome, in the context of express() and in the requested mutations of replicate
+        alphaN = ["mutate 0 20 7", "mutate 0 21 7", "add 0 22:9:s:0:2", "add 0 21:9:s:0:2", "silence 0 21", "express 0 20",
+                  "express 0 21", "rollback 0 20", "getv 0 22", "replicate 0 1 21:5,22:6", "mutate 0 24 7", "silence 0 23"]
+        dN = 2 if tier == "quick" else 3
+        cN = []
+        for a, nw in [("20:*,24:* -", "new 0 0 0 20:1:s:1:2 21:2:c:0:2 23:3:s:0:2 24:4:c:0:3"),
+                      ("- -", "new 1 none 0 20:1:c:1:2 21:2:c:0:2 23:3:s:0:2 24:4:s:0:3")]:
+            for k in range(1, dN + 1):
+                for ops in itertools.product(alphaN, repeat=k):
+                    cN.append({"lines": [f"adv {a}", nw] + list(ops) + ["express 0 21,23", "express 0 20,24", "getv 0 21", "stats 0"],
+                               "note": f"exhaustive name variants depth {k}"})
+        spaces.append({"name": f"all histories of depth <= {dN} over a 12-operation alphabet on genes whose names are equal "
+                               "under case folding / NFC (Temp, temp, TEMP, café NFC, café NFD) x 2 gate configurations",
+                       "cases": cN})
         # LONG histories (one `repeat` line each): more than 1000 / 2000 logged attempts between an approved mutation and its
         # rollback, approved mutate / rollback pairs, refused re-adds, expression flips, many children of one parent
         big = 1030 if tier == "quick" else 2100
@@ -702,6 +769,8 @@ class C20(Prop):
             before = last_after if last_after is not None and len(last_after) == len(w.pool) else [snap(g) for g in w.pool]
             ncalls = len(w.calls)
             res = None
+            saved_out = sys.stdout
+            sys.stdout = _SINK          # a genome whose `silent` was switched off prints; the text is not compared
             try:
                 if kind == "new":
                     _, allow, cb, rate, genes = parsed
@@ -810,6 +879,11 @@ class C20(Prop):
                     elif kind == "setcb":
                         g.on_mutation = None if parsed[2] is None else w.cb(parsed[2])
                         res = "ok"
+                    elif kind == "setsilent":
+                        # console output on / off (children inherit it); prints go to a sink, see _one
+                        k_ = w.nassign = getattr(w, "nassign", 0) + 1
+                        g.silent = [True, 1, "quiet"][k_ % 3] if parsed[2] else [False, 0, None, ""][k_ % 4]
+                        res = "ok"
                     elif kind == "setrate":
                         k_ = w.nassign = getattr(w, "nassign", 0) + 1
                         g.mutation_rate = [1.0, 1, 0.75][k_ % 3] if parsed[2] else [0.0, 0, -1.0][k_ % 3]
@@ -821,6 +895,8 @@ class C20(Prop):
             except Exception as e:  # noqa
                 res = f"raise:{type(e).__name__}"
                 rec["raised"] = type(e).__name__
+            finally:
+                sys.stdout = saved_out
             rec["res"] = res
             rec["before"] = before
             rec["after"] = last_after = state["last_after"] = [snap(g) for g in w.pool]
@@ -860,7 +936,7 @@ class C20(Prop):
             if t[3] not in ("gene", "getv", "express", "export"):
                 return None
             return ("poke", nat(t[1]), nat(t[2]), t[3])
-        if op in ("setallow", "setrate") and len(t) == 3:
+        if op in ("setallow", "setrate", "setsilent") and len(t) == 3:
             if t[2] not in ("0", "1"):
                 return None
             return (op, nat(t[1]), t[2] == "1")
@@ -961,6 +1037,16 @@ class C20(Prop):
                 if bv == av and b["hash"] != a["hash"]:
                     V("hash_changed", f"hash of genome {gid} unchanged (same name->value map)",
                       f"{b['hash']} -> {a['hash']}", idx)
+                # an operation touches only the genome it is invoked on: expression levels, gate settings, generation and
+                # remembered parent hash of every OTHER genome stay (values / hash / log are covered above and below) —
+                # "silenced" in the express clause is what THIS genome's own operations made it
+                if gid != tgt and op != "replicate":
+                    for k_ in ("expr", "allow", "cb", "rate", "generation", "parent_hash"):
+                        if b[k_] != a[k_]:
+                            V({"expr": "expression_applied", "generation": "replicate_preserves_parent",
+                               "parent_hash": "replicate_preserves_parent"}.get(k_, "assignment_exact"),
+                              f"{k_} of genome {gid} untouched by {r['line']!r} (an operation on genome {tgt})",
+                              f"{b[k_]} -> {a[k_]}", idx)
                 # the log is append-only: what was logged stays logged
                 if a["log"][:len(b["log"])] != b["log"]:
                     V("refused_logged", f"log of genome {gid} only grows", "earlier entries changed", idx)
